@@ -59,6 +59,18 @@ def base_pool(rng, mkl=None):
         cands.append(rand_key(rng, rng.randrange(0, 12)))
     for n in (31, 32, 33, 63):
         cands.append(stem + rand_key(rng, n - 20) if n > 20 else stem[:n])
+    if rng.random() < 0.25:
+        # byte/str constants of the tree under test, alone and as prefix/suffix of a key
+        cs = _consts()
+        toks = [b for b in cs["bytes"]] + [s.encode() for s in cs["strs"]]
+        if toks:
+            t = rng.choice(toks)
+            if cs["bytes"] and rng.random() < 0.6:
+                t = rng.choice(cs["bytes"])
+            extra = [t, t + rand_key(rng, rng.randrange(1, 8)), rand_key(rng, rng.randrange(1, 5)) + t]
+            cands = extra + cands
+            if rng.random() < 0.7:
+                cands = [extra[rng.randrange(3)]] * 4 + cands
     size = rng.randrange(3, 13)
     pool = []
     # NUL-aliased pairs are kept together with some probability
@@ -165,6 +177,100 @@ def draw_config(rng, family, wmax=16, dmax=8, nodes_max=4, events=(20, 80), **ov
     else:
         pool = base_pool(rng, cfg.get("mkl"))
     cfg["pool"] = [hexk(k) for k in pool]
+    if over.get("thresholds", True):
+        plan_threshold(rng, cfg, shared_ok=bool(over.get("thr_shared")))
+    return cfg
+
+
+def _consts():
+    from . import boot
+    from .consts import harvest
+
+    return harvest(boot.SK)
+
+
+def plan_threshold(rng, cfg, shared_ok=False, prob=0.05):
+    """Constant-guided swarm: with probability `prob` this run sizes one dimension of its
+    workload around a constant harvested from the tree under test (see consts.py)."""
+    if rng.random() >= prob:
+        return cfg
+    cs = _consts()["ints"]
+    if not cs:
+        return cfg
+    fam = cfg["family"]
+    C = rng.choice(cs)
+    dims = ["mult", "list_len", "ngram_windows", "key_len"]
+    if fam != "hll":
+        dims += ["cells", "cells"]
+    if fam in CMS:
+        dims += ["table_bytes"]
+    if shared_ok and cfg.get("shared"):
+        dims += ["shm_multiple", "shm_multiple"]
+    dim = rng.choice(dims)
+    itemsize = {"linear": 4, "log16": 2, "log8": 1}.get(fam, 1)
+    thr = {"dim": dim, "C": C}
+    if dim == "ngram_windows" and fam != "hll" and C > 2048:
+        dim = thr["dim"] = "list_len"  # a counting sketch's universe would grow by C windows
+    if dim == "list_len" and C <= (1 << 17):
+        thr["lens"] = [max(0, C + d) for d in (-1, 0, 1, 2)] + [2 * C + 1]
+    elif dim == "ngram_windows" and C <= (1 << 17):
+        n = rng.randrange(1, 9)
+        thr["n"] = n
+        long_keys = [rand_key(rng, C + n - 1 + d) if rng.random() < 0.8 else bytes(rng.randrange(256) for _ in range(C + n - 1 + d))
+                     for d in (0, 1, -1)]
+        thr["keys"] = [hexk(bytes(rng.getrandbits(8) for _ in range(len(k)))) for k in long_keys[:2]] + [hexk(long_keys[2])]
+        cfg["pool"] = cfg["pool"] + thr["keys"]
+        cfg["n_events"] = min(cfg["n_events"], 25)
+    elif dim == "key_len" and C <= 4096:
+        thr["keys"] = [hexk(rand_key(rng, max(0, C + d))) for d in (-1, 0, 1)]
+        cfg["pool"] = cfg["pool"] + thr["keys"]
+    elif dim == "cells" and C <= ((1 << 12) if fam == "hh" else (1 << 21)) and fam != "hll":
+        d = rng.randrange(1, (4 if fam == "hh" else 8) + 1)
+        w = max(1, -(-C // d) + rng.choice([0, 0, 1, 2, 3]))
+        cfg["width"], cfg["depth"] = w, d
+        if fam == "hh":
+            cfg["mkl"] = min(cfg["mkl"], 8)
+        if w * d > 4096:
+            cfg["n_events"] = min(cfg["n_events"], 16)
+            cfg["n_nodes"] = min(cfg["n_nodes"], 2)
+    elif dim == "table_bytes" and C <= (1 << 25) and fam in CMS:
+        cells = C // itemsize + rng.choice([1, 3, 17, 1000])
+        d = rng.randrange(1, 5)
+        cfg["width"], cfg["depth"] = max(1, -(-cells // d)), d
+        if cells > 4096:
+            cfg["n_events"] = min(cfg["n_events"], 12)
+            cfg["n_nodes"] = min(cfg["n_nodes"], 2)
+    elif dim == "shm_multiple" and C <= (1 << 16) and fam != "hll":
+        # shape whose shared-memory payload (tables + 16 bookkeeping bytes) is an exact multiple of C
+        found = None
+        per = (cfg.get("mkl", 0) + 5) if fam == "hh" else itemsize
+        for k in range(1, 40):
+            tot = k * C - 16
+            if tot <= 0:
+                continue
+            mkls = range(1, 33) if fam == "hh" else [None]
+            opts = []
+            for m in mkls:
+                unit = (m + 5) if fam == "hh" else itemsize
+                if tot % unit:
+                    continue
+                cells = tot // unit
+                for d in range(1, (4 if fam == "hh" else 8) + 1):
+                    if cells % d == 0 and cells // d <= 4096:
+                        opts.append((cells // d, d, m))
+            if opts:
+                found = rng.choice(opts)
+                break
+        if found:
+            cfg["width"], cfg["depth"] = found[0], found[1]
+            if fam == "hh":
+                cfg["mkl"] = found[2]
+            cfg["n_events"] = min(cfg["n_events"], 25)
+        else:
+            thr["dim"] = "mult"
+    else:
+        thr["dim"] = "mult"
+    cfg["thr"] = thr
     return cfg
 
 
@@ -185,7 +291,9 @@ MULT_CLASSES = {
 }
 
 
-def draw_mult(rng, classes):
+def draw_mult(rng, classes, thr=None):
+    if thr is not None and thr.get("dim") == "mult" and rng.random() < 0.3:
+        return max(0, thr["C"] + rng.choice([-1, 0, 1]))
     name = wchoice(rng, classes)
     return MULT_CLASSES[name](rng)
 
@@ -225,16 +333,40 @@ def _draw_fields(rng, world, ev):
     return ev
 
 
+def _ngram_n(rng, L):
+    """n in 1..L+2; for very long keys only small n or n close to L (the oracle walks every
+    window in pure Python: total window bytes stay bounded)"""
+    if L <= 256:
+        return rng.randrange(1, L + 3)
+    return rng.choice([rng.randrange(1, 9), L - 1, L, L + 1, L + 2])
+
+
 def gen_workload(rng, world, mult, node=None):
     cfg = world.cfg
     i = rng.randrange(len(world.nodes)) if node is None else node
     kind = wchoice(rng, cfg.get("entry_weights", {"add": 5, "update_list": 2, "update_dict": 2, "add_ngram": 2,
                                                    "update_ngram": 1}))
     ev = {"op": kind, "node": i, "via": _via(rng, world, i)}
+    thr = cfg.get("thr")
+    if thr is not None and thr["dim"] == "list_len" and "lens" in thr and rng.random() < 0.25:
+        kind = ev["op"] = "update_list"
+        L = rng.choice(thr["lens"])
+        pool = cfg["pool"]
+        ev["keys"] = rng.choices(pool, k=L)
+        if rng.random() < 0.5 and L:
+            ev["keys"][-1] = pool[rng.randrange(len(pool))]
+        return _draw_fields(rng, world, ev)
+    if thr is not None and thr["dim"] == "ngram_windows" and "keys" in thr and rng.random() < 0.3:
+        ev["op"] = "add_ngram"
+        ev["key"] = rng.choice(thr["keys"])
+        ev["n"] = thr["n"]
+        return _draw_fields(rng, world, ev)
+    if world.fam in LOG and thr is not None and thr["dim"] == "mult" and thr["C"] > 2 * 10 ** 5:
+        thr = None
     if kind == "add":
         ev["key"] = _pick_key(rng, cfg)
         if rng.random() < 0.85:
-            ev["v"] = draw_mult(rng, mult)
+            ev["v"] = draw_mult(rng, mult, thr)
     elif kind == "update_list":
         ev["keys"] = [_pick_key(rng, cfg) for _ in range(rng.randrange(0, 7))]
     elif kind == "update_dict":
@@ -244,16 +376,16 @@ def gen_workload(rng, world, mult, node=None):
             k = _pick_key(rng, cfg)
             if k not in seen:
                 seen.add(k)
-                items.append([k, draw_mult(rng, mult)])
+                items.append([k, draw_mult(rng, mult, thr)])
         ev["items"] = items
     elif kind == "add_ngram":
         k = _pick_key(rng, cfg)
         ev["key"] = k
-        ev["n"] = rng.randrange(1, len(k) // 2 + 3)
+        ev["n"] = _ngram_n(rng, len(k) // 2)
     else:
         ks = [_pick_key(rng, cfg) for _ in range(rng.randrange(0, 4))]
         ev["keys"] = ks
-        ev["n"] = rng.randrange(1, max([len(k) // 2 for k in ks] + [0]) + 3)
+        ev["n"] = _ngram_n(rng, max([len(k) // 2 for k in ks] + [0]))
     return _draw_fields(rng, world, ev)
 
 
